@@ -311,6 +311,9 @@ pub struct Peer {
     pub prev_clients: Vec<u32>,
     pub regs: Vec<u32>,
     pub panicked: bool,
+    /// bind-pose assets created by `skin` operations of this peer, by content: a second entity skinned
+    /// with the same poses SHARES the asset (one glTF skin used by several primitives)
+    pub pose_handles: HashMap<Vec<u64>, Handle<SkinnedMeshInverseBindposes>>,
 }
 
 pub struct Session {
@@ -546,6 +549,7 @@ impl Session {
                 prev_clients: vec![],
                 regs: vec![],
                 panicked: false,
+                pose_handles: HashMap::new(),
             })
             .collect();
         let mut decoder = new_app(false, false);
@@ -844,7 +848,19 @@ impl Session {
                 if let Some(e) = self.resolve(p, h) {
                     let world = self.peers[p].app.world_mut();
                     let mats: Vec<Mat4> = poses.iter().map(|x| Mat4::from_cols_array(&[*x as f32, 0., 0., 0., 0., 1., 0., 0., 0., 0., 1., 0., 0., 0., 0., 1.])).collect();
-                    let handle = world.resource_mut::<Assets<SkinnedMeshInverseBindposes>>().add(SkinnedMeshInverseBindposes::from(mats));
+                    let shared = self.peers[p].pose_handles.get(&poses).cloned();
+                    let world = self.peers[p].app.world_mut();
+                    let still_there = shared.as_ref().map(|hd| {
+                        world.resource::<Assets<SkinnedMeshInverseBindposes>>().get(hd).map(|a| a.len() == mats.len() && a.iter().zip(mats.iter()).all(|(x, y)| x == y)).unwrap_or(false)
+                    }).unwrap_or(false);
+                    let handle = if still_there && !poses.is_empty() {
+                        shared.unwrap()
+                    } else {
+                        let hd = world.resource_mut::<Assets<SkinnedMeshInverseBindposes>>().add(SkinnedMeshInverseBindposes::from(mats));
+                        self.peers[p].pose_handles.insert(poses.clone(), hd.clone());
+                        hd
+                    };
+                    let world = self.peers[p].app.world_mut();
                     if let Some(mut em) = world.get_entity_mut(e) {
                         em.insert(SkinnedMesh { inverse_bindposes: handle, joints: js });
                     }
